@@ -48,6 +48,40 @@ fn main() {
         println!("MIRI-OK L32 cases={count} start={start} seed={seed} table_entries={}", st.evaluations);
         return;
     }
+    if id == "C08T" {
+        // targeted valid inputs (generated natively by `mlv c08t-inputs`, one per line: format, integer,
+        // fraction, exponent) parsed under Miri in the stack and heap configurations: uninitialised reads and
+        // out-of-bounds accesses that sanitizers cannot see
+        let file = args.get(2).cloned().unwrap_or_default();
+        let text = std::fs::read_to_string(&file).unwrap_or_else(|e| panic!("cannot read {file}: {e}"));
+        let mut n = 0;
+        for (i, line) in text.lines().enumerate() {
+            let f: Vec<&str> = line.split(' ').collect();
+            if f.len() != 5 {
+                continue;
+            }
+            let fmt = if f[0] == "f32" { mlv::oracle::Fmt::F32 } else { mlv::oracle::Fmt::F64 };
+            let int = if f[1] == "-" { Vec::new() } else { f[1].as_bytes().to_vec() };
+            let frac = if f[2] == "-" { Vec::new() } else { f[2].as_bytes().to_vec() };
+            let exp: i32 = f[3].parse().unwrap();
+            println!("MIRI-CASE C08T {i} {} {} ({} digits)", f[0], f[4], int.len() + frac.len());
+            for ci in [0usize, 2] {
+                let cfg = &mlv::cfgs::CFGS[ci];
+                match mlv::runner::catch(|| cfg.parse(fmt, &int, &frac, exp)) {
+                    Ok(bits) => {
+                        std::hint::black_box(bits);
+                    }
+                    Err(m) => {
+                        println!("MIRI-VIOLATION C08T {i}: config {} panicked on valid input: {m}", cfg.name);
+                        std::process::exit(1);
+                    }
+                }
+            }
+            n += 1;
+        }
+        println!("MIRI-OK C08T cases={n} file={file}");
+        return;
+    }
     for i in start..start + count {
         let mut bytes = Vec::with_capacity(96);
         let mut s = mix(seed ^ (i + 1).wrapping_mul(0x9e37_79b9_7f4a_7c15));
